@@ -199,3 +199,5 @@ META = {
     "outside_claim": ["graphs with more than 4 nested models", "nested layout for non-tree graphs (excluded by the property)"],
     "assumptions": ["merge policy number_10 keeps all generated models apart, so twins stay distinct models"],
 }
+if isinstance(META.get("bounds"), dict) and "quick" in META["bounds"]:
+    META["bounds"]["quick"] += '; 3 models whose keys need class-name conversion, either layout rendered first (3 frameworks)'
